@@ -149,7 +149,9 @@ class TCPTransport(KNXIPTransport):
         self._buffer = b""
         tcp_transport_factory = TCPTransport.TCPTransportFactory(
             data_received_callback=self.data_received_callback,
-            connection_lost_callback=self._connection_lost,
+            connection_lost_callback=lambda: self._connection_lost(
+                tcp_transport_factory.transport
+            ),
         )
         loop = asyncio.get_running_loop()
         (self.transport, _) = await loop.create_connection(
@@ -158,8 +160,13 @@ class TCPTransport(KNXIPTransport):
             port=self.remote_hpai.port,
         )
 
-    def _connection_lost(self) -> None:
+    def _connection_lost(
+        self, lost_transport: asyncio.BaseTransport | None = None
+    ) -> None:
         """Call assigned callback. Callback for connection lost."""
+        if lost_transport is not None and lost_transport is not self.transport:
+            # the end of a previous connection, reported after a reconnect
+            return
         # avoid calling the callback when the transport was stopped intentionally
         if self.transport is not None:
             self.stop()
